@@ -200,14 +200,27 @@ def render_into_field(lst, sp):
 
 
 def render_attr_list(items, sp, indent):
-    """items: list of 'Trait...' strings -> one or several #[educe(..)] lines"""
+    """items: list of 'Trait...' strings -> one or several #[educe(..)] lines, optionally interleaved with attributes that
+    are not educe's (doc comments, lint attributes): the scanners must skip those wherever they stand"""
     if not items:
         return ''
     items = sp.perm('traitorder', items)
     style = sp.pick('grouping', ['one', 'split'])
     if style == 'one' or len(items) == 1:
-        return f'{indent}#[educe({", ".join(items)})]\n'
-    return ''.join(f'{indent}#[educe({it})]\n' for it in items)
+        lines = [f'{indent}#[educe({", ".join(items)})]\n']
+    else:
+        lines = [f'{indent}#[educe({it})]\n' for it in items]
+    foreign = sp.pick('foreign', ['none', 'doc-before', 'lint-before-doc-after', 'between'])
+    if foreign == 'doc-before':
+        lines = [f'{indent}/// a documented item\n'] + lines
+    elif foreign == 'lint-before-doc-after':
+        lines = [f'{indent}#[allow(dead_code)]\n'] + lines + [f'{indent}/// documented after the educe attribute\n']
+    elif foreign == 'between':
+        out = [f'{indent}#[cfg_attr(all(), allow(unused))]\n']
+        for l in lines:
+            out += [l, f'{indent}/// between\n']
+        lines = out
+    return ''.join(lines)
 
 
 def render_level(a, level, sp, indent):
@@ -239,7 +252,16 @@ def render_fields(v, sp, indent, is_union=False):
 TYPE_WRAP = None   # optional hook: fn(decl_text, t) -> text (used by C19 to put the derive site into a hostile module)
 
 
+_AUTO = [0]
+
+
 def render_type(t, sp=None):
+    if sp is None:
+        # no spelling requested: canonical spelling, but rotate where attributes foreign to educe stand
+        if not hasattr(t, '_auto_sp'):
+            _AUTO[0] += 1
+            t._auto_sp = _AUTO[0] % 4
+        sp = Spelling(force={'foreign': t._auto_sp})
     s = _render_type(t, sp)
     if TYPE_WRAP is not None:
         return TYPE_WRAP(s, t)
